@@ -604,6 +604,60 @@ theorem resolution_unambiguous_partial {gs : List Record}
   exact key_injective_normalized_partial cfg hH2 (stored_names_normalized cfg hg0 ops k r hg) hn
     (records_keyed_by_own_name cfg hg0 ops k r hg) hk hp
 
+/-! ### every valid name has a key; stored names are pairwise distinct -/
+
+omit [DecidableEq κ] in
+/-- A name `Keeper.Normalize` accepts unchanged has a store key (`GetNameKeyPrefix` succeeds on
+it; its pre-image is the reversed concatenation of its segments) — provided the configured minimum
+segment length is at least 1.  (With `minSeg = 0` the statement is false: `valid_name_without_key`.) -/
+theorem normalized_name_has_key (hmin : 1 ≤ cfg.minSeg) {n : Bytes} (hn : IsNormalized cfg n) :
+    preimage n = .ok (splitDot n).reverse.flatten ∧
+      getNameKeyPrefix cfg n = .ok (cfg.H (splitDot n).reverse.flatten) := by
+  have hseg := segments_of_normalized cfg hn
+  have hlim := (normalize_within_limits cfg hn).2.2.1
+  have hp : preimage n = .ok (splitDot n).reverse.flatten := by
+    rw [preimage_eq]
+    have hs : (splitDot n).map trimSpace = splitDot n := hseg
+    rw [hs, if_neg]
+    simp only [List.any_eq_true, List.isEmpty_iff, not_exists, not_and]
+    intro seg hm he
+    have := (hlim seg hm).1
+    rw [he] at this; simp at this; omega
+  exact ⟨hp, by simp [getNameKeyPrefix, hp, Except.map]⟩
+
+omit [DecidableEq κ] in
+/-- NEGATION for `minSeg = 0` (a parameter value `Params` does not exclude): the empty name and
+`a..b`-style names with an empty segment pass `Keeper.Normalize` but `GetNameKeyPrefix` refuses
+them — such a name can never be bound (no harm: `SetNameRecord` returns the key error). -/
+theorem valid_name_without_key (cfg : Cfg κ) (h0 : cfg.minSeg = 0) (hl : 1 ≤ cfg.maxLevels) :
+    IsNormalized cfg [] ∧ getNameKeyPrefix cfg [] = .error .nameInvalid := by
+  have l1 : ¬ 1 > cfg.maxLevels := by omega
+  constructor
+  · have e : normalizeName [] = [] := by decide
+    have v : validateName [] = true := by decide
+    have s : splitDot [] = [[]] := by decide
+    simp [IsNormalized, normalize, e, v, s, h0, l1]
+  · rfl
+
+/-- The names of the stored records are pairwise distinct (no name is stored twice) — after every
+genesis import and every history. -/
+theorem stored_names_distinct {gs : List Record} {st0 : State κ}
+    (hg : initGenesis cfg {} gs = .ok st0) (ops : List Op) :
+    (storedNames (run cfg st0 ops)).Nodup := by
+  have hI := inv_reachable cfg hg ops
+  have hrecs : (run cfg st0 ops).recs.Nodup := List.Nodup.of_map _ hI.recsNodup
+  unfold storedNames allRecords
+  rw [List.map_map]
+  refine List.Nodup.map_on ?_ hrecs
+  rintro ⟨k1, r1⟩ h1 ⟨k2, r2⟩ h2 (heq : r1.name = r2.name)
+  have g1 := (mem_iff_get hI.recsNodup k1 r1).mp h1
+  have g2 := (mem_iff_get hI.recsNodup k2 r2).mp h2
+  have e1 := hI.keyed k1 r1 g1
+  have e2 := hI.keyed k2 r2 g2
+  rw [heq, e2] at e1
+  cases e1
+  rw [g1] at g2; cases g2; rfl
+
 /-! ### names, not store entries: owning one name confers no authority over another -/
 
 omit [DecidableEq κ] in
@@ -764,6 +818,223 @@ theorem key_collision (cfg : Cfg κ) (h2 : cfg.minSeg = 2) (h32 : cfg.maxSeg = 3
     have v : validateName bcdea = true := by decide
     have s : splitDot bcdea = [[98, 99], [100, 101, 97]] := by decide
     simp [IsNormalized, normalize, e, v, s, h2, h32, h16]
+
+/-! ### the collision for every configured limit -/
+
+/-- a segment of lower-case letters only -/
+def Plain (s : Bytes) : Prop := ∀ c ∈ s, isLower c = true
+
+set_option maxRecDepth 4000 in
+theorem plain_facts : ∀ c : UInt8, isLower c = true →
+    c ≠ dot ∧ isSpace c = false ∧ isUpper c = false ∧ c ≠ dash := u8_forall (by decide)
+
+theorem plain_normSeg {s : Bytes} (h : Plain s) : normSeg s = s := by
+  have hsp : ∀ c ∈ s, isSpace c = false := fun c hc => (plain_facts c (h c hc)).2.1
+  have ht : trimSpace s = s := by
+    rw [trimSpace_eq]
+    have h1 : s.dropWhile isSpace = s := by
+      cases s with
+      | nil => rfl
+      | cons c cs => simp [List.dropWhile, hsp c (by simp)]
+    rw [h1, List.rdropWhile_eq_self_iff]
+    intro hl
+    simp [hsp _ (List.getLast_mem hl)]
+  unfold normSeg
+  rw [ht]
+  exact map_toLower_of_noUpper (fun c hc => (plain_facts c (h c hc)).2.2.1)
+
+theorem plain_dotfree {s : Bytes} (h : Plain s) : dot ∉ s :=
+  fun hm => (plain_facts dot (h dot hm)).1 rfl
+
+theorem plain_valid {s : Bytes} (h : Plain s) : validateNameSegment s = true := by
+  have hc : s.count dash = 0 := List.count_eq_zero.mpr fun hm => (plain_facts dash (h dash hm)).2.2.2 rfl
+  have ha : (s.all fun c => c == dash || isLower c || isDigit c) = true :=
+    List.all_eq_true.mpr fun c hc => by simp [h c hc]
+  simp [validateNameSegment, hc, ha]
+
+theorem splitDot_two {s1 s2 : Bytes} (h1 : Plain s1) (h2 : Plain s2) :
+    splitDot (s1 ++ dot :: s2) = [s1, s2] := by
+  have := splitDot_append_dotfree s1 (plain_dotfree h1) (dot :: s2) [] (splitDot s2) (splitDot_cons_dot s2)
+  rw [splitDot_dotfree_eq (plain_dotfree h2)] at this
+  simpa using this
+
+omit [DecidableEq κ] in
+/-- a name of two lower-case segments whose lengths are within the limits is a valid normalized name -/
+theorem isNormalized_two {s1 s2 : Bytes} (h1 : Plain s1) (h2 : Plain s2)
+    (l1 : cfg.minSeg ≤ s1.length ∧ s1.length ≤ cfg.maxSeg)
+    (l2 : cfg.minSeg ≤ s2.length ∧ s2.length ≤ cfg.maxSeg) (hl : 2 ≤ cfg.maxLevels) :
+    IsNormalized cfg (s1 ++ dot :: s2) := by
+  have hn : normalizeName (s1 ++ dot :: s2) = s1 ++ dot :: s2 := by
+    rw [normalizeName_eq, splitDot_two h1 h2]
+    simp [plain_normSeg h1, plain_normSeg h2, joinDot]
+  have hv : validateName (s1 ++ dot :: s2) = true := by
+    simp [validateName, splitDot_two h1 h2, plain_valid h1, plain_valid h2]
+  have e1 : ¬ s1.length < cfg.minSeg := by omega
+  have e2 : ¬ s2.length < cfg.minSeg := by omega
+  have e3 : ¬ s1.length > cfg.maxSeg := by omega
+  have e4 : ¬ s2.length > cfg.maxSeg := by omega
+  have e5 : ¬ 2 > cfg.maxLevels := by omega
+  simp [IsNormalized, normalize, hn, hv, splitDot_two h1 h2, List.findSome?, e1, e2, e3, e4, e5]
+
+theorem preimage_two {s1 s2 : Bytes} (h1 : Plain s1) (h2 : Plain s2) (n1 : s1 ≠ []) (n2 : s2 ≠ []) :
+    preimage (s1 ++ dot :: s2) = .ok (s2 ++ s1) := by
+  have t1 : trimSpace s1 = s1 := by have := trimSpace_normSeg s1; rwa [plain_normSeg h1] at this
+  have t2 : trimSpace s2 = s2 := by have := trimSpace_normSeg s2; rwa [plain_normSeg h2] at this
+  rw [preimage_eq, splitDot_two h1 h2]
+  simp [t1, t2, n1, n2]
+
+def aaa (k : Nat) : Bytes := List.replicate k 97
+def bbb (k : Nat) : Bytes := List.replicate k 98
+/-- `a…a.b…b` with `m+1` a's and `m` b's — `aaa.bb` for `m = 2` -/
+def collA (m : Nat) : Bytes := aaa (m + 1) ++ dot :: bbb m
+/-- `a…a.b…ba` with `m` a's, then `m` b's and one a — `aa.bba` for `m = 2` -/
+def collB (m : Nat) : Bytes := aaa m ++ dot :: (bbb m ++ [97])
+
+theorem plain_aaa (k : Nat) : Plain (aaa k) := by
+  intro c hc; rw [List.eq_of_mem_replicate hc]; decide
+theorem plain_bbb (k : Nat) : Plain (bbb k) := by
+  intro c hc; rw [List.eq_of_mem_replicate hc]; decide
+theorem plain_bbba (k : Nat) : Plain (bbb k ++ [97]) := by
+  intro c hc
+  rcases List.mem_append.mp hc with h | h
+  · exact plain_bbb k c h
+  · rw [List.mem_singleton.mp h]; decide
+
+omit [DecidableEq κ] in
+/-- NEGATION of "two different valid names never resolve to the same record" FOR EVERY CONFIGURED
+LIMIT that admits two levels and two different segment lengths: whenever `maxLevels ≥ 2` and some
+length `m ≥ 1` has `minSeg ≤ m` and `m + 1 ≤ maxSeg` (i.e. `max 1 minSeg < maxSeg`), the names
+`a^(m+1).b^m` and `a^m.b^m a` are two different names `Keeper.Normalize` accepts unchanged, both
+have a key, and — whatever the hash function — the same one (both pre-images are `b^m a^(m+1)`).
+`key_collision` is the instance of this pattern at the default limits. -/
+theorem key_collision_family (cfg : Cfg κ) (m : Nat) (hm : 1 ≤ m) (hmin : cfg.minSeg ≤ m)
+    (hmax : m + 1 ≤ cfg.maxSeg) (hlev : 2 ≤ cfg.maxLevels) :
+    IsNormalized cfg (collA m) ∧ IsNormalized cfg (collB m) ∧ collA m ≠ collB m ∧
+      preimage (collA m) = .ok (bbb m ++ aaa (m + 1)) ∧
+      preimage (collB m) = .ok (bbb m ++ aaa (m + 1)) ∧
+      getNameKeyPrefix cfg (collA m) = getNameKeyPrefix cfg (collB m) := by
+  have la : (aaa (m + 1)).length = m + 1 := by simp [aaa]
+  have la' : (aaa m).length = m := by simp [aaa]
+  have lb : (bbb m).length = m := by simp [bbb]
+  have lb' : (bbb m ++ [97]).length = m + 1 := by simp [bbb]
+  have p1 : preimage (collA m) = .ok (bbb m ++ aaa (m + 1)) :=
+    preimage_two (plain_aaa _) (plain_bbb _) (by intro h; rw [h] at la; simp at la)
+      (by intro h; rw [h] at lb; simp at lb; omega)
+  have p2 : preimage (collB m) = .ok (bbb m ++ aaa (m + 1)) := by
+    have := preimage_two (plain_aaa m) (plain_bbba m) (by intro h; rw [h] at la'; simp at la'; omega)
+      (by simp)
+    rw [collB, this]
+    simp [aaa, List.replicate_succ]
+  refine ⟨isNormalized_two cfg (plain_aaa _) (plain_bbb _) (by omega) (by omega) hlev,
+    isNormalized_two cfg (plain_aaa _) (plain_bbba _) (by omega) (by omega) hlev, ?_, p1, p2,
+    by simp [getNameKeyPrefix, p1, p2]⟩
+  intro h
+  have := congrArg (fun n => (splitDot n).map List.length) h
+  simp only [collA, collB, splitDot_two (plain_aaa _) (plain_bbb _),
+    splitDot_two (plain_aaa _) (plain_bbba _), List.map_cons, la, la', List.map_nil] at this
+  simp at this
+
+/-- the family is not empty at the default limits (m = 2 … 31), at the smallest limits that admit
+it (min 1, max 2, 2 levels), and for `minSeg = 0` -/
+example : collA 2 = [97, 97, 97, 46, 98, 98] ∧ collB 2 = [97, 97, 46, 98, 98, 97] := by decide
+example (cfg : Cfg κ) (h1 : cfg.minSeg = 1) (h2 : cfg.maxSeg = 2) (h3 : cfg.maxLevels = 2) :
+    getNameKeyPrefix cfg (collA 1) = getNameKeyPrefix cfg (collB 1) :=
+  (key_collision_family cfg 1 (by omega) (by omega) (by omega) (by omega)).2.2.2.2.2
+
+omit [DecidableEq κ] in
+/-- … and where NO collision exists (1): with at most ONE level, valid normalized names with the
+same key are the same name (if the hash does not collide on their two pre-images). -/
+theorem no_key_collision_single_level (hlev : cfg.maxLevels ≤ 1) {n1 n2 : Bytes}
+    (hH : NoHashCollision cfg [n1, n2]) (hn1 : IsNormalized cfg n1) (hn2 : IsNormalized cfg n2)
+    {k : κ} (h1 : getNameKeyPrefix cfg n1 = .ok k) (h2 : getNameKeyPrefix cfg n2 = .ok k) :
+    n1 = n2 := by
+  refine key_injective_normalized_partial cfg hH hn1 hn2 h1 h2 ?_
+  have one : ∀ n, IsNormalized cfg n → ∃ s, splitDot n = [s] := by
+    intro n hn
+    have hl := (normalize_within_limits cfg hn).2.2.2
+    match hs : splitDot n with
+    | [] => exact absurd hs (splitDot_ne_nil n)
+    | [s] => exact ⟨s, rfl⟩
+    | _ :: _ :: _ => rw [hs] at hl; simp at hl; omega
+  obtain ⟨s1, e1⟩ := one n1 hn1
+  obtain ⟨s2, e2⟩ := one n2 hn2
+  -- one segment each: the pre-image is the segment itself
+  have hs : segments n1 = segments n2 := by
+    cases hp1 : preimage n1 with
+    | error e => simp [getNameKeyPrefix, hp1, Except.map] at h1
+    | ok p1 =>
+      cases hp2 : preimage n2 with
+      | error e => simp [getNameKeyPrefix, hp2, Except.map] at h2
+      | ok p2 =>
+        have := (key_collision_iff_resegmentation cfg hH hp1 hp2).mp (by rw [h1, h2])
+        rw [segments_of_normalized cfg hn1, segments_of_normalized cfg hn2, e1, e2] at this ⊢
+        simpa using this
+  unfold profile; rw [hs]
+
+omit [DecidableEq κ] in
+/-- … (2): among names ALL of whose segments have one and the same length `ℓ ≥ 1` — in particular
+when `minSeg = maxSeg` and no segment is a UUID (the only segments exempt from `maxSeg`) — valid
+normalized names with the same key are the same name.  So a collision needs two levels AND
+two different segment lengths; `key_collision_family` gives one whenever the limits admit that
+with plain segments, `uuid_collision_fixed_length` one through the UUID exemption. -/
+theorem no_key_collision_uniform_length {n1 n2 : Bytes} (hH : NoHashCollision cfg [n1, n2])
+    (hn1 : IsNormalized cfg n1) (hn2 : IsNormalized cfg n2) {l : Nat} (hl : 1 ≤ l)
+    (u1 : ∀ seg ∈ splitDot n1, seg.length = l) (u2 : ∀ seg ∈ splitDot n2, seg.length = l)
+    {k : κ} (h1 : getNameKeyPrefix cfg n1 = .ok k) (h2 : getNameKeyPrefix cfg n2 = .ok k) :
+    n1 = n2 := by
+  refine key_injective_normalized_partial cfg hH hn1 hn2 h1 h2 ?_
+  have prof : ∀ n, IsNormalized cfg n → (∀ seg ∈ splitDot n, seg.length = l) →
+      profile n = List.replicate (splitDot n).length l ∧
+      ((segments n).reverse.flatten).length = (splitDot n).length * l := by
+    intro n hn hu
+    have hp : profile n = List.replicate (splitDot n).length l := by
+      unfold profile; rw [segments_of_normalized cfg hn]
+      exact List.eq_replicate_iff.mpr ⟨by simp, by
+        intro x hx; obtain ⟨seg, hseg, rfl⟩ := List.mem_map.mp hx; exact hu seg hseg⟩
+    refine ⟨hp, ?_⟩
+    rw [List.length_flatten, List.map_reverse]
+    have : (segments n).map List.length = profile n := rfl
+    rw [this, hp]; simp
+  obtain ⟨p1, f1⟩ := prof n1 hn1 u1
+  obtain ⟨p2, f2⟩ := prof n2 hn2 u2
+  cases hp1 : preimage n1 with
+  | error e => simp [getNameKeyPrefix, hp1, Except.map] at h1
+  | ok q1 =>
+    cases hp2 : preimage n2 with
+    | error e => simp [getNameKeyPrefix, hp2, Except.map] at h2
+    | ok q2 =>
+      have hf := (key_collision_iff_resegmentation cfg hH hp1 hp2).mp (by rw [h1, h2])
+      have hlen : (splitDot n1).length * l = (splitDot n2).length * l := by rw [← f1, ← f2, hf]
+      have : (splitDot n1).length = (splitDot n2).length := Nat.eq_of_mul_eq_mul_right (by omega) hlen
+      rw [p1, p2, this]
+
+def hex32 : Bytes := List.replicate 32 97                                    -- 32 × "a": a UUID in its 32-hex form
+def hex8x4 : Bytes := joinDot (List.replicate 8 (List.replicate 4 97))      -- "aaaa.aaaa.….aaaa", 8 levels
+
+omit [DecidableEq κ] in
+/-- … and `minSeg = maxSeg` does NOT exclude collisions: a segment that parses as a UUID is exempt
+from `maxSeg` (keeper.go:277), and the 32-hex-digit form consists of valid segment characters.  With
+`minSeg = maxSeg = 4` and 8 levels the one-segment name of 32 a's (a UUID) and the eight-level name
+`aaaa.aaaa.….aaaa` are both accepted by `Keeper.Normalize` and share their key for every hash. -/
+theorem uuid_collision_fixed_length (cfg : Cfg κ) (h4 : cfg.minSeg = 4) (h4' : cfg.maxSeg = 4)
+    (hl : 8 ≤ cfg.maxLevels) :
+    IsNormalized cfg hex32 ∧ IsNormalized cfg hex8x4 ∧ hex32 ≠ hex8x4 ∧
+      getNameKeyPrefix cfg hex32 = getNameKeyPrefix cfg hex8x4 := by
+  have p1 : preimage hex32 = .ok hex32 := by decide
+  have p2 : preimage hex8x4 = .ok hex32 := by decide
+  have l1 : ¬ 1 > cfg.maxLevels := by omega
+  have l8 : ¬ 8 > cfg.maxLevels := by omega
+  refine ⟨?_, ?_, by decide, by simp [getNameKeyPrefix, p1, p2]⟩
+  · have e : normalizeName hex32 = hex32 := by decide
+    have v : validateName hex32 = true := by decide
+    have s : splitDot hex32 = [hex32] := by decide
+    have u : isValidUUID hex32 = true := by decide
+    have ln : hex32.length = 32 := by decide
+    simp [IsNormalized, normalize, e, v, s, u, ln, h4, h4', l1]
+  · have e : normalizeName hex8x4 = hex8x4 := by decide
+    have v : validateName hex8x4 = true := by decide
+    have s : splitDot hex8x4 = List.replicate 8 (List.replicate 4 97) := by decide
+    simp [IsNormalized, normalize, e, v, s, h4, h4', l8]
 
 /-- the two names have different segment-length profiles (so `key_injective_partial` does not apply) -/
 example : profile abcde ≠ profile bcdea := by decide
